@@ -138,10 +138,8 @@ class ConveyorBelt(Edge):
     def can_get(self):
         """Check if an item can be retrieved from the belt."""
         #first_item_to_go_out = self.items[0] if self.items else None
-        if not self.out_buf.items:
-            return False
-        else:
-           return True
+        # an item is retrievable if more items wait at the exit than retrievals are already granted
+        return len(self.belt.ready_items) > len(self.belt.reservations_get)
 
     def is_stalled(self):
           """Check if the belt is stalled due to time constraints."""
@@ -152,10 +150,12 @@ class ConveyorBelt(Edge):
 
     def can_put(self):
         """Check if an item can be added to the belt."""
-        if not self.inp_buf.items:
-            return True
-        else:
-            return False
+        # admission depends on capacity, on the spacing behind the last item and on the belt
+        # state, all of which reserve_put evaluates: probe it and withdraw the probe again
+        probe = self.belt.reserve_put()
+        granted = probe.triggered
+        self.belt.reserve_put_cancel(probe)
+        return granted
     
     def reserve_put(self):
        return self.belt.reserve_put()
